@@ -39,6 +39,8 @@ def make_copy(tag):
 
 
 def apply_textual(base, m):
+    for extra in m.get("more", []):
+        apply_textual(base, dict(extra, id=m["id"]))
     path = os.path.join(base, m["file"])
     text = open(path).read()
     count = text.count(m["old"])
